@@ -21,11 +21,13 @@ ParserOK(s) ==
 (* ---- query options (Get and Scan) *)
 DefaultMaxVersions == 1
 Absent == -1
+TsMax == -2      \* stands for the maximum timestamp (2^64 - 1), the default upper bound
 (* an option record: families, trFrom/trTo (Absent = not given), maxVersions, storeLimit, storeOffset, cacheBlocks, priority,  *)
 (* timeline, filter (class name or ""), existsOnly                                                                           *)
 ExpectedQuery(o) ==
   [columns      |-> o.families,                                   \* family -> qualifiers, as given (empty list = whole family)
-   trFrom       |-> o.trFrom, trTo |-> o.trTo,                    \* only when the option was used
+   \* only when the option was used, and a bound is written only if it is not the default (0 / the maximum: a half-open range)
+   trFrom       |-> (IF o.trFrom = 0 THEN Absent ELSE o.trFrom), trTo |-> (IF o.trTo = TsMax THEN Absent ELSE o.trTo),
    maxVersions  |-> IF o.maxVersions = DefaultMaxVersions THEN Absent ELSE o.maxVersions,
    storeLimit   |-> o.storeLimit,                                 \* Absent = default (no limit)
    storeOffset  |-> IF o.storeOffset = 0 THEN Absent ELSE o.storeOffset,
@@ -43,10 +45,11 @@ FamilyShapes == { <<>>,
                   << [f |-> <<102>>, qs |-> << <<97>> >>], [f |-> <<103>>, qs |-> << <<98>> >>] >>,
                   << [f |-> <<102>>, qs |-> << <<97>>, <<98>> >>], [f |-> <<103>>, qs |-> << <<99>> >>], [f |-> <<104>>, qs |-> <<>>] >> }
 QueryOptions ==
-  [families : FamilyShapes, trFrom : {Absent, 3}, trTo : {Absent, 9}, maxVersions : {1, 5}, storeLimit : {Absent, 7},
+  [families : FamilyShapes, trFrom : {Absent, 0, 3}, trTo : {Absent, 9, TsMax}, maxVersions : {1, 5}, storeLimit : {Absent, 7},
    storeOffset : {0, 2}, cacheBlocks : BOOLEAN, priority : {0, 6}, timeline : BOOLEAN,
    filter : {"", "org.apache.hadoop.hbase.filter.PrefixFilter"}, existsOnly : BOOLEAN]
-ValidQuery(o) == (o.trFrom = Absent) = (o.trTo = Absent)
+ValidQuery(o) == /\ (o.trFrom = Absent) = (o.trTo = Absent)
+                 /\ ~(o.trFrom = 0 /\ o.trTo = TsMax)      \* (that is: no range at all)
 
 (* ---- scan specifics *)
 ScanShapes == [start : {<<>>, <<97>>}, stop : {<<>>, <<122>>}, reversed : BOOLEAN, numberOfRows : {Absent, 3}, maxResultSize : {Absent, 4096}]
